@@ -99,6 +99,11 @@ func (c *cx) onlyFacts(id string, f *eng.Fn, n ast.Node, construct string, allow
 	}
 	var extra []string
 	for _, a := range f.Graph().FactsAt(pt, assume...) {
+		// "not one of the earlier cases of the type switch" restricts nothing
+		// beyond the case's own type
+		if strings.HasPrefix(a, "!istype(") {
+			continue
+		}
 		okk := false
 		for _, al := range allowed {
 			if eng.Glob(al, a) {
